@@ -413,6 +413,33 @@ def run_case(inp):
             p, r, f = read_tags(x)
             if not (p == r == f) or any(t % g != int(k) for t in p):
                 V("rows-together", f"group {k}: pos={p} rot={r} feat={f}")
+        # keys given as expressions (aliased to a new name, or un-aliased so that they carry the name of an existing
+        # feature) and several keys at once: the groups still hold the molecules' own rows, features unchanged
+        orig = {int(t): (float(v), sv) for t, v, sv in zip(m.features["tag"].to_list(), m.features["val"].to_list(),
+                                                         m.features["s"].to_list())} if n else {}
+        for label, keys in (("aliased expression", [(pl.col("tag") % g).alias("kk")]), ("un-aliased expression", [pl.col("tag") % g]),
+                            ("un-aliased boolean", [pl.col("val") > 2.0]), ("two keys", ["s", (pl.col("tag") % 2).alias("par")])):
+            try:
+                gl = list(m.group_by(keys))
+            except Exception as e:  # noqa: BLE001
+                V("no-error", f"group_by({label}) raised {type(e).__name__}: {str(e)[:100]}")
+                continue
+            seen = []
+            for k, x in gl:
+                p, rr_, f = read_tags(x)
+                if not (p == rr_) or (f is not None and f != p):
+                    V("rows-together", f"group_by({label}) group {k}: pos={p} rot={rr_} feat={f}")
+                    break
+                if sorted(x.features.columns) != sorted(m.features.columns):
+                    V("group-features", f"group_by({label}): group members have feature columns {x.features.columns}, the input has {m.features.columns}")
+                    break
+                for t, v, sv in zip(p, x.features["val"].to_list(), x.features["s"].to_list()):
+                    if orig.get(int(t)) != (float(v), sv):
+                        V("group-features", f"group_by({label}): molecule {t} carries features {(v, sv)} in its group, {orig.get(int(t))} in the input")
+                        break
+                seen += p
+            if sorted(seen) != list(range(n)):
+                V("partition", f"group_by({label}) does not partition the table: {sorted(seen)}")
         edges = inp["edges"]
         cut = list(m.cutby("val", edges))
         ctags = sorted(t for _, x in cut for t in read_tags(x)[0])
